@@ -69,13 +69,13 @@ func getWorld(schemeIdx, n int, agg bool) *world {
 	}
 	w := &world{scheme: scheme, n: n, agg: agg, ms: kit.NewCluster(scheme, n, opts...)}
 	gen := hotstuff.GetGenesis()
-	b1 := hotstuff.NewBlock(gen.Hash(), kit.GenesisQC(), &clientpb.Batch{Commands: []*clientpb.Command{{ClientID: 1, SequenceNumber: 1, Data: []byte("b1")}}}, 1, 1)
+	b1 := kit.NewBlock(gen.Hash(), kit.GenesisQC(), &clientpb.Batch{Commands: []*clientpb.Command{{ClientID: 1, SequenceNumber: 1, Data: []byte("b1")}}}, 1, 1)
 	b1.SetTimestamp(time.Unix(1_700_000_000, 1).UTC())
 	sig, err := kit.CombineAny(scheme, w.ms[0].Base, kit.SignEach(w.ms, b1.ToBytes()))
 	if err != nil {
 		panic(err)
 	}
-	b2 := hotstuff.NewBlock(b1.Hash(), hotstuff.NewQuorumCert(sig, 1, b1.Hash()), &clientpb.Batch{}, 2, hotstuff.ID(mod(1, n)+1))
+	b2 := kit.NewBlock(b1.Hash(), hotstuff.NewQuorumCert(sig, 1, b1.Hash()), &clientpb.Batch{}, 2, hotstuff.ID(mod(1, n)+1))
 	b2.SetTimestamp(time.Unix(1_700_000_001, 999_999_999).UTC())
 	kit.StoreAll(w.ms, b1)
 	kit.StoreAll(w.ms, b2)
@@ -503,7 +503,7 @@ func (w *world) buildBlock(s BlockSpec, f *feat) *hotstuff.Block {
 	f.tok(fmt.Sprintf("parent=%d", mod(s.ParentMode, 5)))
 	f.u64("block.view", s.View)
 	f.u32("block.proposer", s.Proposer)
-	b := hotstuff.NewBlock(w.parent(s.ParentMode, s.ParentSeed), w.buildQC(s.QC, f, "block.qc"), buildBatch(s.Batch, f), hotstuff.View(s.View), hotstuff.ID(s.Proposer))
+	b := kit.NewBlock(w.parent(s.ParentMode, s.ParentSeed), w.buildQC(s.QC, f, "block.qc"), buildBatch(s.Batch, f), hotstuff.View(s.View), hotstuff.ID(s.Proposer))
 	if ts, ok := buildTS(s.TS, f); ok {
 		b.SetTimestamp(ts)
 	}
